@@ -61,7 +61,7 @@ def run(tier="quick", seed=0):
         for nn in (False, True):
             out.append(CIR.Read(x, nn))
         out.append(CIR.Read(y, False))
-        for c in (0, 1, 3, -2):
+        for c in (0, 1, 2, 3, -2):
             out.append(CIR.Const(c))
         out.append(CIR.Stride(w, 0))
         return out
@@ -185,7 +185,7 @@ def run(tier="quick", seed=0):
 
     def lleaves():
         return [LoopIR.Read(x, [], T.index, SRC), LoopIR.Read(y, [], T.index, SRC)] + \
-               [LoopIR.Const(c, T.int, SRC) for c in (0, 1, 3)]
+               [LoopIR.Const(c, T.int, SRC) for c in (0, 1, 2, 3)]
 
     def ltrees(depth):
         if depth == 0:
